@@ -35,33 +35,38 @@ def build_tag(base):
     return base if repo == "/repo" else base + "-" + hashlib.sha1(repo.encode()).hexdigest()[:6]
 
 
-def rand_text(r, heavy):
-    words = [b"hello", b"world", b"ab", b" ", b"xyz", b"he", b"w", b"aa", b"b", b"\x00", b"hello world"]
+def rand_text(r, heavy, extra=()):
+    words = [b"hello", b"world", b"ab", b" ", b"xyz", b"he", b"w", b"aa", b"b", b"\x00", b"hello world", b"xyyz"] + list(extra)
     t = b"".join(r.choice(words) for _ in range(r.randint(2, 12)))
     if heavy:
         t += b"a" * r.randint(MAXM + 2, MAXM + 6)
     return t + r.choice([b"", b"hello", b"zz"])
 
 
-def gen_pool(r):
+def gen_pool(r, bomb=False):
     """inputs of one case; returns list of Input (single block) + description"""
     pool = []
+    extra = [b"cd", b"ccd"] if bomb else []
     pool.append(sl.repo_input("tests/data/tiny") if r.random() < 0.2 else
                 sl.Input(sl.synth_pe(0x1000 + r.choice([0, 0x10, 0x24, 0x80]), r.choice([b"hello", b"", b"aaab world"]))))
     pool.append(sl.repo_input("tests/data/elf_with_imports") if r.random() < 0.15 else
                 sl.Input(sl.synth_elf32(0x8048000 + r.choice([0x54, 0x60, 0x7f]), r.choice([b"world hello", b"", b"aa"]))))
-    pool.append(sl.Input(rand_text(r, r.random() < 0.5)))
+    pool.append(sl.Input(rand_text(r, r.random() < 0.5, extra)))
     pool.append(sl.Input(b""))
+    if bomb:
+        pool.append(sl.Input(b"c" * 5000))      # makes the regexp engine run out of fibers
     u = r.random()
     if u < 0.4:
-        pool.append(sl.Input(rand_text(r, r.random() < 0.5)))
+        pool.append(sl.Input(rand_text(r, r.random() < 0.5, extra)))
     elif u < 0.7:
         pool.append(sl.Input(sl.synth_pe(0x1000 + r.choice([4, 0x30, 0x44]), b"hello hello")))
     r.shuffle(pool)
     return pool
 
 
-def gen_ruleset(r, pool):
+def gen_ruleset(r, pool, bomb=False, pad=None):
+    """pad: None | 'strings' | 'rules' | 'ns9' | 'ns65' — filler strings / rules / namespaces in FRONT of everything else, so that
+    every string / rule / namespace that matters has an index beyond the first word (and byte) of the scanner's bitmaps and arrays"""
     eps = sorted({sl.entry_point_offset(i.data) for i in pool} - {None})
     sizes = sorted({len(i.data) for i in pool})
     pes = sorted({sl.pe_module_field(i.data) for i in pool} - {None})
@@ -69,12 +74,29 @@ def gen_ruleset(r, pool):
     rules = []
     nstr = [0]
 
-    def add(cond, ns=0, flags="", strings=()):
-        rules.append(dict(ns=ns, flags=flags, strings=list(strings), cond=cond))
+    ns0 = [0]
+
+    def add(cond, ns=0, flags="", strings=(), filler=False):
+        rules.append(dict(ns=ns0[0] + ns, flags=flags, strings=list(strings), cond=cond, filler=filler))
         nstr[0] += len(strings)
 
     def sid():
         return nstr[0]
+    if pad in ("ns9", "ns65"):
+        n = r.randint(9, 12) if pad == "ns9" else r.randint(65, 70)
+        for k in range(n):
+            rules.append(dict(ns=k, flags="p", strings=[], cond=("ff",), filler=True))
+        ns0[0] = n
+    if pad == "strings":
+        n = r.randint(64, 70)
+        fill = [bytes([0xFE, 0xFD, 0x01, k]) for k in range(n)]
+        c = ("str", 0)
+        for k in range(1, n):
+            c = ("or", c, ("str", k))
+        add(c, flags=r.choice(["p", ""]), strings=fill)
+    if pad == "rules":
+        for k in range(r.randint(64, 70)):
+            add(r.choice([("ff",), ("ff",), ("tt",)]), flags="p")
     use_burn = r.random() < 0.6
     if use_burn:
         add(("burn",))
@@ -83,6 +105,13 @@ def gen_ruleset(r, pool):
     s_hello = sid(); add(("str", s_hello), strings=[b"hello"])
     s_aa = sid(); add(("cnt", s_aa, r.choice([1, 2, 4])), strings=[b"aa"])
     s_w = sid(); add(r.choice([("at", s_w, 6), ("and", ("str", s_w), ("fsge", 12)), ("or", ("at", s_w, 0), ("fseq", 0))]), strings=[b"world"])
+    # regular-expression strings: their verification uses the scanner's fiber pool
+    if r.random() < 0.8:
+        s_r = sid(); add(r.choice([("str", s_r), ("cnt", s_r, 2)]), strings=[sl.Rx("xy+z")])
+    if r.random() < 0.6:
+        s_r = sid(); add(("str", s_r), strings=[sl.Rx("w[a-z]{2,4}d")])
+    if bomb:
+        s_r = sid(); add(("str", s_r), strings=[sl.Bomb()])
     add(("epdef",))
     for e in eps[:3]:
         add(("epeq", e))
@@ -112,7 +141,7 @@ def gen_ruleset(r, pool):
         add(("tt",), flags="p")
     k = len(rules)
     if k >= 4:
-        a, b = sorted(r.sample(range(k), 2))
+        a, b = sorted(r.sample([i for i in range(k) if not rules[i]["filler"]] if pad != "rules" else range(k), 2))
         add(r.choice([("and", ("ref", a), ("not", ("ref", b))), ("or", ("ref", a), ("ref", b))]))
     # second namespace: a global rule that fails on some inputs, so that ns_unsatisfied_flags matters
     if r.random() < 0.7:
@@ -171,11 +200,7 @@ def gen_ops(r, inputs, timeout):
 
 
 def count_occ(data, s):
-    n, o = 0, data.find(s)
-    while o >= 0:
-        n += 1
-        o = data.find(s, o + 1)
-    return n
+    return len(sl.str_findall(s, data))
 
 
 def gen_case(r, cid):
@@ -185,21 +210,32 @@ def gen_case(r, cid):
         c = gen_case1(r, cid)
         strs = c["rs"].all_strings()
         heavy = [s for s in strs if any(count_occ(i.data, s) > MAXM for i in c["inputs"])]
-        if len(heavy) <= 1:
+        # regexp strings stay below the limit (a candidate verified twice through two atoms would ask the callback twice)
+        rx_ok = all(count_occ(i.data, s) < MAXM for s in strs if not isinstance(s, bytes) for i in c["inputs"])
+        runs_ok = all(sl.Bomb.longest_run(i.data) <= sl.Bomb.SAFE or sl.Bomb.longest_run(i.data) >= sl.Bomb.SURE for i in c["inputs"]) \
+            if any(isinstance(s, sl.Bomb) for s in strs) else True
+        if len(heavy) <= 1 and rx_ok and runs_ok:
             return c
 
 
 def gen_case1(r, cid):
-    pool = gen_pool(r)
+    bomb = r.random() < 0.35
+    pad = r.choice([None, None, None, "strings", "strings", "rules", "ns9", "ns65"])
+    pool = gen_pool(r, bomb)
     inputs = list(pool)
     for x in pool:
-        if len(x.data) >= 2 and r.random() < 0.6:
+        if len(x.data) == 5000:
+            if r.random() < 0.5:       # the failing block between two harmless ones
+                a, b = r.randint(1, 6), r.randint(1, 6)
+                inputs.append(x.with_parts([a, 5000 - a - b, b]))
+        elif len(x.data) >= 2 and r.random() < 0.6:
             k = r.randint(2, 4)
             parts = sl.split_parts(r, len(x.data), k)
             avail = [r.random() > 0.08 for _ in parts]
             inputs.append(x.with_parts(parts, avail))
     inputs = inputs[:10]
-    rs = gen_ruleset(r, pool)
+    rs = gen_ruleset(r, pool, bomb, pad)
+    rs.pad, rs.bomb = pad, bomb
     # yr_execute_code tests the timeout every 100 instructions: only a rule set that starts and ends with a long loop
     # makes the position of that test unobservable, so only those are combined with a timeout
     timeout = r.choice([0, 1000, 1000]) if rs.has_burn else 0
@@ -240,11 +276,32 @@ def classify(line, main, ref):
 
 def run(tier, replay=None):
     chk = core.Check("C10", tier)
-    for f in os.listdir(os.path.join(core.OUT, "C10")):
-        os.unlink(os.path.join(core.OUT, "C10", f))
     lres = core.lean_check(THM)
     core.proof_coverage(chk, lres, THM)
     b = core.build("asan", harness=["h_hist"], extra_defs="-DYR_MAX_STRING_MATCHES=%d" % MAXM, tag=build_tag("m%d" % MAXM))
+    # from here on the real code runs: whatever goes wrong (crash, sanitizer report, hang, output that cannot be understood)
+    # is a finding about /repo, reported as a violation with a replay file
+    try:
+        found = run_body(chk, lres, b, tier, replay)
+    except sl.HarnessCrash as e:
+        chk.violation("harness_crash.json", e.replay_obj("hist", "h_hist"))
+        found = True
+    except Exception as e:
+        import traceback
+        chk.violation("harness_unexpected.json", {"kind": "harness-crash-or-unexpected-output", "engine": "hist", "harness": "h_hist",
+                                                  "error": repr(e), "traceback": traceback.format_exc()[-3000:],
+                                                  "case": replay["case"] if replay else None}, no_input=not replay)
+        found = True
+    core.handle_broken_proof(chk, lres, found)
+    chk.assumptions += ["rule sets use plain literal strings and three fixed regexp shapes, no chained strings, no fast mode / process-memory mode",
+                        "at most one string per rule set can exceed the match limit in a block (order of TOO_MANY_MATCHES messages between strings is not modelled)",
+                        "timeouts are virtual (the iterator rewinds the scanner's stopwatch by 400 s or 2000 s with a 1000 s limit)",
+                        "ERROR_TOO_MANY_RE_FIBERS is forced by 5000 x 'c' against /(c{1,40}){1,40}d/ (runs of 7..2999 'c' are never generated)",
+                        "yr_scanner_last_error_string (never reset by the code, not part of the callback trace) is not compared"]
+    return chk.finish("proof")
+
+
+def run_body(chk, lres, b, tier, replay):
     variant = os.environ.get("VERIF_SCAN_VARIANT") or None
     r = core.rng("C10")
     found = False
@@ -261,6 +318,13 @@ def run(tier, replay=None):
                 for k in range(1, len(c["ops"])):
                     extra.append(dict(c, id="%sp%d" % (c["id"], k), ops=c["ops"][:k]))
         cases += extra
+        shapes = {}
+        for c in cases:
+            for k in ("pad=%s" % c["rs"].pad, "regexp_fiber_bomb=%s" % c["rs"].bomb):
+                shapes[k] = shapes.get(k, 0) + 1
+        chk.cov["rule_set_shapes"] = shapes
+        chk.cov["rule_set_sizes"] = {"max_rules": max(len(c["rs"].rules) for c in cases), "max_strings": max(c["rs"].nstrings for c in cases),
+                                     "max_namespaces": max(c["rs"].rules[-1]["ns"] + 1 for c in cases)}
         sl.describe(b["h_hist"], [c["rs"] for c in cases], core)
         lines = corpus_lines("C10") + lines_of(cases, variant)
     impl, rc, err = core.run_parallel([b["h_hist"]], lines)
@@ -366,13 +430,9 @@ def run(tier, replay=None):
                 nontriv.add(l.split(" ", 1)[1])
         chk.cov.update({"evaluations": len(lines), "api_calls": ncalls, "distinct_nontrivial": len(nontriv),
                         "traces_validated_against_impl": sum(1 for l in lines if l.split(" ", 1)[0] in parsed and mm.get(l.split(" ", 1)[0]) == "|".join(parsed[l.split(" ", 1)[0]][0])),
-                        "rule": "random histories (2-7 logical scans, up to 20 calls) on one scanner over 4-10 inputs and a generated rule set of 12-25 rules; "
+                        "rule": "random histories (2-7 logical scans, up to 20 calls) on one scanner over 4-10 inputs and a generated rule set of 12-100 rules "
+                                "(literal and regexp strings; a share with > 64 filler strings / rules / > 8 / > 64 namespaces in front); "
                                 "non-trivial = >= 3 distinct call traces and >= 1 call not ending in OK",
                         "result_codes": rcs, "history_features": kinds,
                         "samples": [{"case": lines[0][:600] + " ...", "implementation": impl[0][:400] if impl else None, "model": model[0][:400] if model else None}]})
-    core.handle_broken_proof(chk, lres, found)
-    chk.assumptions += ["rule sets use plain literal strings, no chained strings, no fast mode / process-memory mode",
-                        "at most one string per rule set can exceed the match limit in a block (order of TOO_MANY_MATCHES messages between strings is not modelled)",
-                        "timeouts are virtual (the iterator rewinds the scanner's stopwatch by 400 s or 2000 s with a 1000 s limit)",
-                        "yr_scanner_last_error_string (never reset by the code, not part of the callback trace) is not compared"]
-    return chk.finish("proof")
+    return found
